@@ -160,13 +160,14 @@ def check_property(pid, tier, replay=None, out=sys.stdout):
         else:
             new_viol.append((rid, v))
 
-    os.makedirs(os.path.join(VERIF, "evidence", "replay"), exist_ok=True)
+    EVDIR = os.environ.get("VERIF_EVIDENCE_DIR") or os.path.join(VERIF, "evidence")
+    os.makedirs(os.path.join(EVDIR, "replay"), exist_ok=True)
     for rid, v in known_hit:
         print("KNOWN-FINDING: property=%s %s %s" % (pid, v.key, known_keys[v.key].get("what", v.msg)), file=out)
     n = 0
     for rid, v in new_viol:
         n += 1
-        rpath = os.path.join(VERIF, "evidence", "replay", "%s-%d.json" % (pid, n))
+        rpath = os.path.join(EVDIR, "replay", "%s-%d.json" % (pid, n))
         with open(rpath, "w") as fh:
             json.dump({"property": pid, "rule": rid, "rule_text": RULES[rid].text, "violation": v.to_json()}, fh, indent=1)
         print("  [%s] %s\n      at %s\n      %s" % (rid, v.key, v.where, v.msg), file=out)
@@ -210,7 +211,7 @@ def check_property(pid, tier, replay=None, out=sys.stdout):
         "wall_s": round(time.time() - t0, 3),
         "violations": len(new_viol),
     }
-    with open(os.path.join(VERIF, "evidence", "%s.json" % pid), "w") as fh:
+    with open(os.path.join(EVDIR, "%s.json" % pid), "w") as fh:
         json.dump(ev, fh, indent=1)
     print("%s %s: %d rules, %d instances (%d distinct non-trivial), %d known findings, %d new violations, %.1fs" % (
         pid, tier, len(rules), len(all_inst), nontrivial, len(known_hit), len(new_viol), time.time() - t0), file=out)
